@@ -97,6 +97,13 @@ func lzCases(seed, label uint64, count int, lclp4 bool) []lzCase {
 		if k.Part == "bytes" && k.N > 3000 {
 			k.N = 3000
 		}
+		if i >= 450 && i%9 == 4 {
+			// content built against the range coder's arithmetic under this case's properties:
+			// runs of held-back bytes, ended with or without a carry (see gen "carry:")
+			rr := prng.New(seed, label, 99, uint64(i)) // (own generator: the draws of the other cases stay as they were)
+			k.Family = fmt.Sprintf("carry:%d%d%d:%d:%d:%s:256", k.LC, k.LP, k.PB, rr.Pick(0, 20, 200, 1500), rr.Pick(6, 12, 40, 150), []string{"c", "n"}[rr.Intn(2)])
+			k.N = 0
+		}
 		out = append(out, k)
 	}
 	return out
@@ -221,6 +228,7 @@ func checkC06(c *ev.Ctx) {
 		sink, dev, pn := runLZWriter(k, data)
 		det["output_len"] = len(sink.Buf)
 		det["output_head"] = ev.Hex(sink.Buf, 128)
+		noteCarry(c, k.Family, sink.Buf)
 		c.Eval(k.class(), len(data) > 0)
 		switch {
 		case pn != nil:
